@@ -36,6 +36,7 @@ const (
 	kTok            // n: token id (component specific, e.g. the ring's current slot)
 	kTuple
 	kAlloc // n: index of a local cell
+	kCmp   // an undecided comparison of interest; tag: its decision label, n: 1 when negated
 )
 
 type val struct {
@@ -711,6 +712,8 @@ func (a *tsRun) run(s *tsState) {
 			case token.NOT:
 				if x.k == kBool {
 					f.regs[in] = vbool(x.n == 0)
+				} else if x.k == kCmp {
+					f.regs[in] = val{k: kCmp, tag: x.tag, n: 1 - x.n}
 				}
 			case token.SUB:
 				if x.k == kConst {
@@ -780,7 +783,15 @@ func (a *tsRun) run(s *tsState) {
 			} else if y.k == kSink && s.present[y.n] == 0 && x.k == kNil {
 				f.regs[in] = unknown
 			} else {
-				f.regs[in] = binop(in.Op, x, y)
+				rv := binop(in.Op, x, y)
+				if rv.k == kUnknown {
+					// remember which decision this undecided comparison is, so that it keeps its label when it is
+					// returned from a small helper and branched on by the caller
+					if label := c.condLabel(in); label != "" {
+						rv = val{k: kCmp, tag: label}
+					}
+				}
+				f.regs[in] = rv
 			}
 		case *ssa.MakeInterface:
 			f.regs[in] = a.get(f, in.X)
@@ -820,6 +831,10 @@ func (a *tsRun) run(s *tsState) {
 				continue
 			}
 			label := c.condLabel(in.Cond)
+			neg := false
+			if cv.k == kCmp {
+				label, neg = cv.tag, cv.n == 1
+			}
 			if label != "" {
 				a.record(s, "dec:"+label, -1, -1, "", in)
 			}
@@ -828,9 +843,13 @@ func (a *tsRun) run(s *tsState) {
 				nf := n.stack[len(n.stack)-1]
 				nf.regs[in.Cond] = vbool(i == 0)
 				if label != "" {
-					n.dec[label] = int8(1 - i)
+					outcome := int8(1 - i) // the labelled comparison holds on the true edge ...
+					if neg {
+						outcome = int8(i) // ... unless the branch is on its negation
+					}
+					n.dec[label] = outcome
 					if c.OnDecision != nil {
-						c.OnDecision(n, label, int8(1-i))
+						c.OnDecision(n, label, outcome)
 					}
 				}
 				a.refine(n, nf, in.Cond, i == 0)
@@ -913,7 +932,7 @@ func (a *tsRun) storeArg(f *frame, in *ssa.Store) string {
 		return "+1"
 	}
 	v := a.get(f, in.Val)
-	if v.k != kUnknown {
+	if v.k != kUnknown && v.k != kCmp {
 		return a.C.fieldValString(-1, v)
 	}
 	return "?"
